@@ -75,6 +75,7 @@ type GhostSet struct {
 	AtReturn bool // `set G = E at return`: evaluated at every return, `result`/`resultK` name the returned values
 	Callee  string
 	Nth     int
+	Before  bool // `set G = E before call KEY N`: evaluated right before the call (and before the point assertions and the callee's preconditions at that call)
 	File    string
 	Line    int
 }
@@ -320,9 +321,9 @@ func (cs *ContractSet) loadContractFile(path, pkgName string) error {
 			if cur == nil {
 				return fail("set outside func")
 			}
-			m := regexp.MustCompile(`^([A-Za-z_][A-Za-z0-9_]*)\s*=\s*(.*?)\s+(at entry|at return|after call (\S+) (\d+))$`).FindStringSubmatch(rest)
+			m := regexp.MustCompile(`^([A-Za-z_][A-Za-z0-9_]*)\s*=\s*(.*?)\s+(at entry|at return|(?:after|before) call (\S+) (\d+))$`).FindStringSubmatch(rest)
 			if m == nil {
-				return fail("set NAME = EXPR (at entry | at return | after call KEY N)")
+				return fail("set NAME = EXPR (at entry | at return | after call KEY N | before call KEY N)")
 			}
 			e, err := parseSpecExpr(m[2])
 			if err != nil {
@@ -336,6 +337,7 @@ func (cs *ContractSet) loadContractFile(path, pkgName string) error {
 			} else {
 				gs.Callee = m[4]
 				gs.Nth, _ = strconv.Atoi(m[5])
+				gs.Before = strings.HasPrefix(m[3], "before")
 			}
 			cur.GhostSets = append(cur.GhostSets, gs)
 		case "modifies":
